@@ -74,6 +74,10 @@ Definition check_case (c : case_t) : bool :=
   && qapprox (r_time r) (o_time c) && Nat.eqb (r_events r) (o_events c)
   && (negb (c_sync c) || Nat.eqb (r_steps r) (o_steps c)).
 
+(* a history: the same process and dynamics objects run several times, each run from a fresh copy of the
+   prototype network; the model knows no state that survives a run, so every run is checked on its own *)
+Definition check_runs (cs : list case_t) : bool := forallb check_case cs.
+
 (* for debugging: which conjunct fails, and the index of the first differing snapshot *)
 Definition diagnose (c : case_t) : list bool * nat :=
   let r := model_run c in
